@@ -375,7 +375,7 @@ func (st *ServerStream) readerSetActive(ss *ServerSession) {
 		for medi, sm := range ss.setuppedMedias {
 			streamMedia := st.medias[medi]
 			streamMedia.multicastWriter.rtcpl.addClient(
-				ss.author.ip(), streamMedia.multicastWriter.rtcpl.port(), sm.readPacketRTCPUDPPlay)
+				ss.author.ip(), ss.author.zone(), streamMedia.multicastWriter.rtcpl.port(), sm.readPacketRTCPUDPPlay)
 		}
 	} else {
 		st.activeUnicastReaders[ss] = struct{}{}
@@ -397,7 +397,7 @@ func (st *ServerStream) readerSetInactiveUnsafe(ss *ServerSession) {
 	if ss.setuppedTransport.Protocol == ProtocolUDPMulticast {
 		for medi := range ss.setuppedMedias {
 			streamMedia := st.medias[medi]
-			streamMedia.multicastWriter.rtcpl.removeClient(ss.author.ip(), streamMedia.multicastWriter.rtcpl.port())
+			streamMedia.multicastWriter.rtcpl.removeClient(ss.author.ip(), ss.author.zone(), streamMedia.multicastWriter.rtcpl.port())
 		}
 	} else {
 		delete(st.activeUnicastReaders, ss)
